@@ -61,9 +61,10 @@ def handle (st : St) (line : String) : St × Option String :=
        let trees : Std.HashMap String JVal := match st.jtoks[vid]? with
          | some toks => (match parseJMap 0 toks with | some (m, _) => ({} : Std.HashMap String JVal).insert vid m | none => {})
          | none => {}
-       -- hypotheses of the C18 theorems (maps are duplicate-free, nil maps empty, leaves typed), on every tree read
-       if trees.fold (fun acc _ m => acc || !(Inspector.C18.JMapsOK m && Inspector.C18.JLeavesOK m)) false then
-         (st, some "dev-ok hypothesis JMapsOK/JLeavesOK of the C18 theorems does not hold for this tree") else
+       -- hypotheses of the C18 theorems (maps are duplicate-free, nil maps empty, leaves typed, the node of a nil
+       -- pointer to a map is a nil map), on every tree read
+       if trees.fold (fun acc _ m => acc || !(Inspector.C18.JMapsOK m && Inspector.C18.JLeavesOK m && Inspector.C18.JNilPtrsOK m)) false then
+         (st, some "dev-ok hypothesis JMapsOK/JLeavesOK/JNilPtrsOK of the C18 theorems does not hold for this tree") else
        (match parts with
         | ("JO" :: _) :: _ => (st, some (samapOpLoop st trees parts))
         | [h, path, out] =>
